@@ -10,6 +10,7 @@ mod ops_crash;
 mod ops_migrate;
 mod ops_action;
 mod ops_http;
+mod ops_lsp;
 
 use std::io::{BufRead, Write};
 
@@ -35,6 +36,7 @@ fn serve() {
     let mut st = ops_basic::State::default();
     let mut cst = ops_cache::CacheState::default();
     let mut qst = ops_claim::ClaimState::default();
+    let mut lst = ops_lsp::LspState::default();
     for line in stdin.lock().lines() {
         let line = line.expect("stdin");
         if line.is_empty() {
@@ -57,6 +59,9 @@ fn serve() {
                 return r;
             }
             if let Some(r) = ops_claim::dispatch(&mut qst, &op, &fields) {
+                return r;
+            }
+            if let Some(r) = ops_lsp::dispatch(&mut lst, &op, &fields) {
                 return r;
             }
             if let Some(r) = ops_http::dispatch(&op, &fields) {
